@@ -96,7 +96,18 @@ def judge_call(case, values):
             fails.append(("keyword-call-rejection-is-not-JaqalError:%s" % kw[1], {"signature": sigk, "args": vcs, "error": kw[2]}))
         elif kw[0] != pos[0]:
             fails.append(("keyword-and-positional-disagree", {"signature": sigk, "args": vcs, "positional": pos[0], "keyword": kw[0]}))
-        elif kw[0] == "ok":
+        if len(args) >= 2 and len(args) == len(params):
+            # keywords written in another order than the declaration
+            rk = try_call(gd, kwargs=dict(reversed(list(zip(names, args)))))
+            if rk[0] != pos[0]:
+                fails.append(("keyword-order-changes-acceptance", {"signature": sigk, "args": vcs, "positional": pos[0], "reversed-keywords": rk[0]}))
+            elif rk[0] == "ok":
+                a, b = pos[1], rk[1]
+                if list(a.parameters.keys()) != list(b.parameters.keys()) or not all(
+                        x is y for x, y in zip(a.parameters.values(), b.parameters.values())) or not (a == b and b == a):
+                    fails.append(("keyword-order-changes-statement", {"signature": sigk, "args": vcs,
+                                                                      "positional": list(a.parameters.keys()), "keywords": list(b.parameters.keys())}))
+        if kw[0] == "ok" and pos[0] == "ok":
             a, b = pos[1], kw[1]
             same = a.name == b.name and list(a.parameters.keys()) == list(b.parameters.keys()) and all(
                 x is y for x, y in zip(a.parameters.values(), b.parameters.values())) and a.gate_def is b.gate_def
